@@ -41,7 +41,7 @@ def run (j : Json) : Except String Json := do
   let O ← oraclesOfJson j
   let cls ← declOfJson (← j.getObjVal? "cls")
   let kw ← kwOfJson (← j.getObjVal? "kw")
-  let res := construct O cls kw
+  let res := constructH O cls kw
   let base := [("res", resToJson res),
                ("admits", Json.bool (admitsKw O cls kw)),
                ("norm", valToJson (normKw O cls kw)),
@@ -51,7 +51,7 @@ def run (j : Json) : Except String Json := do
     | some x => do
       let ops ← (← x.getArr?).toList.mapM entryOfJson
       let r := match res with
-        | .ok inst => runChain O cls inst ops
+        | .ok inst => runChainH O cls inst ops
         | .error e => .error e
       pure [("chainRes", resToJson r)]
   let base := base ++ chainPart ++ [("wfDecl", Json.bool (wfDecl cls))]
